@@ -396,18 +396,21 @@ def first_unmatched(trace, consumed):
 
 
 def make_canary(src, dst, rng):
+    """Flip the status a client read for a request that only has one admissible answer: a routed request of a run
+    without any fault (200 -> 502)."""
     lines = [json.loads(l) for l in open(src)]
     cands = []
     for i, rec in enumerate(lines):
+        if any(r["fault"] != "none" for r in rec["reqs"]):
+            continue
         for oi, o in enumerate(rec["obs"]):
             for ei, e in enumerate(o):
-                if e.get("ev") == "C_Status" and e.get("status") in ("200", "502", "504"):
+                if e.get("ev") == "C_Status" and e.get("status") == "200" and rec["reqs"][e["r"] - 1]["route"] in ("a", "b"):
                     cands.append((i, oi, ei))
     if not cands:
         return False
     i, oi, ei = rng.choice(cands)
-    e = lines[i]["obs"][oi][ei]
-    e["status"] = {"200": "502", "502": "504", "504": "502"}[e["status"]]
+    lines[i]["obs"][oi][ei]["status"] = "502"
     with open(dst, "w") as f:
         for rec in lines:
             f.write(json.dumps(rec) + "\n")
